@@ -8,7 +8,7 @@ ids="$@"; [ -n "$ids" ] || ids=$(ls seeded)
 for id in $ids; do
   d=seeded/$id
   p=$(python3 -c "import json;print(json.load(open('$d/meta.json'))['breaks'])")
-  s=$(date +%s); out=$(bash harness/seedrun.sh "$V/$d" $p 2>&1); e=$(date +%s)
+  s=$(date +%s); out=$(bash harness/seedrun.sh "$V/$d" $p 2>&1 | grep -av "ignored null byte"); e=$(date +%s)
   echo "$id -> $p: $(echo "$out" | head -1 | sed 's/^SEED [^ ]* check [^:]*: //') ($((e-s))s)"
   echo "$out" | sed -n 2,3p | cut -c1-220
 done
